@@ -253,7 +253,8 @@ def coq_graph(g, nm: Names, scale: int) -> str:
 
 
 def integral(r: dict) -> bool:
-    return all(float(v) == int(v) for v in r["vals"])
+    import math
+    return all(math.isfinite(float(v)) and float(v) == int(v) for v in r["vals"])
 
 
 def coq_case(case: dict, res: dict, gname: str, nm: Names, scale: int) -> str | None:
@@ -353,6 +354,46 @@ def model_alone(chk, case: dict, res: dict, tag: str):
         return None, None, None, f"{type(e).__name__}: {out[-600:]}"
 
 
+def models_for(chk, rows: list[tuple[dict, dict]], tag: str) -> list:
+    """evaluate the model on many cases in one Coq file; -> per case (raw-like dict | None, sanity, supported)"""
+    if not rows:
+        return []
+    nm = Names()
+    gdefs, gnames, body, scales = [], {}, [], []
+    for case, res in rows:
+        prob = res["problem"]
+        key = json.dumps(prob["graph"])
+        scale = graph_scale(prob["graph"])
+        scales.append(scale)
+        if key not in gnames:
+            gnames[key] = f"g{len(gnames)}"
+            gdefs.append(f"Definition {gnames[key]} : graph Z := {coq_graph(prob['graph'], nm, scale)}.\n")
+        body.append(coq_case(case, res, gnames[key], nm, scale))
+    text = (HEADER + FLAT + nm.defs() + "".join(gdefs)
+            + "Definition cases : list kcase :=\n [" + ";\n  ".join(body) + "].\n"
+            + "Eval vm_compute in (map (fun c => let (m, o) := model_out c in "
+              "(flat m, o, supported (cfg_of c) (c_graph c) 0)) cases).\n")
+    ok, out = chk.coq_eval(f"c01g_p{os.getpid()}_{tag}", text)
+    if not ok:
+        return [(None, None, None)] * len(rows)
+    try:
+        parsed = parse_flat(out)
+    except Exception:  # noqa: BLE001
+        return [(None, None, None)] * len(rows)
+    res_out = []
+    for item, scale in zip(parsed, scales):
+        try:
+            dims, ordering, levels, vals, sane, supp = item
+            modes = "".join("d" if lv[0] == [-1] and lv[1] == [] else "s" for lv in levels)
+            raw = {"dims": dims, "ordering": ordering, "modes": modes,
+                   "indices": [[] if m == "d" else [lv[0], lv[1]] for m, lv in zip(modes, levels)], "vals": vals,
+                   "values_scaled_by": scale}
+            res_out.append((raw, sane, supp))
+        except Exception:  # noqa: BLE001
+            res_out.append((None, None, None))
+    return res_out
+
+
 # ------------------------------------------------------------------------------------------------
 # classification of a disagreement
 # ------------------------------------------------------------------------------------------------
@@ -436,10 +477,43 @@ def problems_for(chk, thorough: bool) -> list[dict]:
     for t, fms in BUCKETS:
         probs.append({"assignment": t, "cap": 1, "nsizes": 4 if thorough else 3, "ninputs": 2, "tag": "buckets",
                       "formats": fms, "cycles": False, "sizes_set": [1, 2, 3]})
+    for t in search_assignments(chk.rng, 70 if thorough else 14):
+        probs.append({"assignment": t, "cap": 6 if thorough else 3, "nsizes": 2, "ninputs": 3 if thorough else 2,
+                      "tag": "search", "sizes_set": [1, 2, 3], "cycles": False})
     for t in LATTICE:
         probs.append({"assignment": t, "cap": 24 if thorough else 6, "nsizes": 2 if thorough else 1,
                       "ninputs": 6 if thorough else 3, "tag": "lattice", "sizes_set": [2, 3, 4], "prefer_sparse": True})
     return probs
+
+
+SEARCH_VECTORS = [("t", "b", ("i",)), ("t", "c", ("i",)), ("t", "d", ("i",)), ("t", "e", ("i",)), ("int", 0), ("int", 2),
+                  ("float", "0.0"), ("t", "b", ("i",))]
+SEARCH_MATRICES = [("t", "b", ("i", "j")), ("t", "c", ("j",)), ("t", "d", ("i",)), ("t", "e", ("i", "j")), ("int", 0),
+                   ("int", 3), ("t", "f", ("j", "i"))]
+
+
+def search_assignments(rng, n: int) -> list[str]:
+    """random expression trees (2..5 leaves, + - *) over sparse-able vectors / matrices and the literals
+    0, 0.0, 2, 3 (the literals steer the exhaust / is_sparse / Integer(0) paths), with a random admissible
+    target (contractions included)"""
+    from harness import c01_spec as S
+
+    out, seen, tries = [], set(), 0
+    while len(out) < n and tries < 50 * n:
+        tries += 1
+        pool = SEARCH_VECTORS if rng.random() < 0.5 else SEARCH_MATRICES
+        e = S.random_expr(rng, rng.choice([2, 3, 3, 4, 4, 5]), pool)
+        if not any(l[0] == "t" for l in S.leaves(e)):
+            continue
+        try:
+            tg = rng.choice(S.targets_for(e))
+        except Exception:  # noqa: BLE001
+            continue
+        text = S.show_assignment(("a", tg, e))
+        if text not in seen:
+            seen.add(text)
+            out.append(text)
+    return out
 
 
 def load_corpus() -> list[dict]:
@@ -497,6 +571,7 @@ def run_kernel_correspondence(chk, prop: str | None = None, budget_cases: int | 
                        "stderr_tail": tail})
     by_id = {c["id"]: c for c in cases}
     rows = []
+    early_bad = []
     for cid, res in sorted(results.items()):
         case = by_id[cid]
         if res.get("status") == "harness":
@@ -515,6 +590,11 @@ def run_kernel_correspondence(chk, prop: str | None = None, budget_cases: int | 
             else:
                 chk.count("C01G.skipped_exception:" + res["out"])
                 continue
+        if (res["status"] == "ok" and graph_scale(prob["graph"]) == 1 and not integral(res["out"])):
+            # inputs and literals are integers, so every value G computes is an integer: a NaN / inf /
+            # fractional value in the real output is a disagreement without asking Coq
+            early_bad.append((case, res))
+            continue
         rows.append((case, res))
     # shards
     per = 300
@@ -538,6 +618,7 @@ def run_kernel_correspondence(chk, prop: str | None = None, budget_cases: int | 
         for i in lists[1]:
             not_ok.append(rows[lo + i])
         outside += len(lists[2])
+    bad = early_bad + bad
     chk.count("C01G.side_conditions_hold(graph_okb,support_okb)", len(rows) - len(not_ok))
     chk.count("C01G.output_layers_all_appended", len(rows) - outside)
     chk.count("C01G.with_bucket_over_dense_layers", outside)
@@ -565,28 +646,47 @@ def run_kernel_correspondence(chk, prop: str | None = None, budget_cases: int | 
         case, res = rows[len(rows) // 2]
         chk.sample({"stage": "C01G", "assignment": case["assignment"], "formats": case["formats"], "sizes": case["sizes"],
                     "graph": res["problem"]["graph"], "raw_output": res["out"]})
-    # diagnose (the simplest first)
+    # classify every disagreement (the simplest first).  What each property needs from the tie:
+    #   C01: abs(real) = abs(G_out);  C02: the real arrays are well-formed;  C03: the real output stores no
+    #   prefix that G_out does not store.  A disagreement of another class (e.g. an extra explicit zero region
+    #   seen from C01) does not concern the calling property: it is counted and noted, not alarmed.
     bad.sort(key=lambda cr: (len(json.dumps(cr[0]["inputs"])), len(cr[0]["assignment"])))
-    for n, (case, res) in enumerate(bad[:6]):
-        model, sane, supp, txt = model_alone(chk, case, res, f"{chk.prop}_diag{n}")
+    bad = bad[:200]
+    models = models_for(chk, bad, f"{chk.prop}_diag")
+    reported = 0
+    for (case, res), (model, sane, supp) in zip(bad, models):
         inp = {k: case.get(k) for k in ("assignment", "formats", "sizes", "inputs")}
         payload = {"input": inp, "graph": res["problem"]["graph"], "real_status": res["status"],
-                   "actual": res["out"], "expected": model, "model_sanity_bit": sane, "model_supported": supp,
-                   "coq_output": txt if model is None else None}
+                   "actual": res["out"], "expected": model, "model_sanity_bit": sane, "model_supported": supp}
         if model is None:
-            chk.broken.append({"kind": "correspondence", "stage": "C01G.diagnose", "case": inp, "coq": txt})
+            chk.count("C01G.disagreement_not_diagnosed")
+            if reported < 3:
+                chk.broken.append({"kind": "correspondence", "stage": "C01G.diagnose", "case": inp})
+                reported += 1
             continue
         if res["status"] != "ok" or not supp or not sane:
-            chk.broken.append({"kind": "correspondence", "stage": "C01G", "what": "generator refusal / model sanity differs",
-                               **payload})
+            chk.count("C01G.disagreement:generator_refusal_or_sanity")
+            if reported < 6:
+                chk.broken.append({"kind": "correspondence", "stage": "C01G",
+                                   "what": "generator refusal / model sanity differs", **payload})
+                reported += 1
             continue
         cls = classify(res["out"], model)
         payload["violates"] = cls
-        if cls == "model" or (prop in ("C01", "C02", "C03") and cls != prop):
-            chk.broken.append({"kind": "correspondence", "stage": "C01G",
-                               "what": f"real kernel and abstract kernel model G disagree (class {cls})", **payload})
+        chk.count("C01G.disagreement_class:" + cls)
+        if cls == prop or (prop not in ("C01", "C02", "C03") and cls != "model"):
+            if reported < 6:
+                chk.violation(f"real evaluate kernel differs from the proved kernel model G: violates {cls}", payload)
+                reported += 1
+        elif prop not in ("C01", "C02", "C03"):
+            if reported < 6:
+                chk.broken.append({"kind": "correspondence", "stage": "C01G",
+                                   "what": "real kernel and abstract kernel model G disagree on a representation detail",
+                                   **payload})
+                reported += 1
         else:
-            chk.violation(f"real evaluate kernel differs from the proved kernel model G: violates {cls}", payload)
+            chk.note(f"C01G: a disagreement of class {cls} (not {prop}'s concern) on '{case['assignment']}' "
+                     f"{json.dumps(case['formats'], sort_keys=True)}")
     for f in (BUILD / "cases").glob(f"c01g_p{os.getpid()}_*"):
         try:
             f.unlink()
